@@ -140,6 +140,7 @@ class MoveAE(object):
         self.dest = dest
         self.requests = []
         self.seen = []
+        self.exit_fault = False       # the sub-association cannot be released in time (its peer does not answer)
 
     def on_receive_move(self, ctx, ds, destination):
         self.seen.append((ds, destination))
@@ -151,17 +152,22 @@ class MoveAE(object):
         if remote_ae is None:
             raise exceptions.AssociationError('no destination to connect to')
         yield self.dest
+        if self.exit_fault:
+            raise exceptions.DCMTimeoutError()
 
 
 @cond(bounds='C-MOVE provider: total = 0..3 sub-operations (symbolic), outcome of each success / warning B000 / failure '
              'A700 (symbolic), message id and context id symbolic, destination known / unknown when nothing is to be '
              'moved (symbolic); schedule (symbolic): the provider thread takes every queued response at once, or only '
-             'after the service callable has returned (responses must say what they said when they were sent); one '
+             'after the service callable has returned (responses must say what they said when they were sent); the '
+             'release of the sub-association works / times out (symbolic) - the final response is sent regardless; one '
              'instance per total', family={'total': [0, 1, 2, 3]}, timeout=400)
-def move_provider(total: int, o0: int, o1: int, o2: int, mid: int, h: int, known: bool, lazy: bool) -> bool:
+def move_provider(total: int, o0: int, o1: int, o2: int, mid: int, h: int, known: bool, lazy: bool,
+                  exit_fault: bool) -> bool:
     """
     pre: total == fam('total') and 0 <= o0 <= 2 and 0 <= o1 <= 2 and 0 <= o2 <= 2 and 0 <= mid <= 65535 and 0 <= h <= 127
     pre: (total > 2 or o2 == 0) and (total > 1 or o1 == 0) and (total > 0 or o0 == 0)
+    pre: not exit_fault or total < 3 or tier() == 'thorough'
     post: _
     """
     total = fam('total')
@@ -170,6 +176,7 @@ def move_provider(total: int, o0: int, o1: int, o2: int, mid: int, h: int, known
     dest = Dest(codes)
     remote = {'aet': 'DEST', 'address': 'd', 'port': 104}
     ae = MoveAE((remote if (total > 0 or known) else None, total, iter([inst(i) for i in range(total)])), dest)
+    ae.exit_fault = exit_fault
     asce = RecAssoc(ae, lazy=lazy)
     rq = dm.CMoveRQMessage()
     rq.message_id = mid
@@ -183,7 +190,8 @@ def move_provider(total: int, o0: int, o1: int, o2: int, mid: int, h: int, known
     except exceptions.NetDICOMError as e:
         raised = e
     sent = asce.sent()
-    ok = raised is None
+    # a failing release of the sub-association may surface as an error - after the final response has gone out
+    ok = raised is None or (exit_fault and total > 0)
     # each instance stored once, in order, at the designated destination
     ok = ok and [s[1] for s in dest.stored] == ['1.2.3.%d' % i for i in range(total)]
     ok = ok and (ae.requests == ([remote] if total > 0 else []))
